@@ -7,6 +7,7 @@ Case kinds
   t  observable: real simulator on the real wrapped design, clocks / resets / controls / inputs written by hand with one
      ctx.set(Cat(...), bits) per event, every driven signal read after every event, against the faithful engine model
   s  the same observation against the SPEC engine (reset rise of an async domain only loads initial values)
+  m  observable, designs with a lib.memory.Memory under the wrappers: signals and all memory rows after every event
 """
 import random
 from common import z, zlist, blit
@@ -27,12 +28,19 @@ RULE = ("designs: 1-3 clock domains (pos/neg edge; sync / async / no reset) defi
         "DomainRenamer (alias->real, real->real merging) in all orders on any node (all stacks of length <= 2 over a 6-wrapper alphabet, "
         "a sample of length 3-4 (thorough: all of length 3) on a fixed design, then random). events: every subset of {clk_i toggle, rst_i toggle} in "
         "shuffled blocks plus random control / input changes, <= 40 events (thorough 80), one ctx.set(Cat(..)) per event. "
-        "non-trivial = at least one wrapper (x) / some driven signal changes during the trace (t, s); distinct by case hash")
+        "memory designs (kinds m, x:mem): a lib.memory.Memory (width 1-4, depth 2-5, 1-2 write ports with any granularity, "
+        "1-2 comb / sync / transparent read ports, port domains incl. aliases) on any node under the wrapper stacks, port "
+        "inputs written by the testbench, controls unsigned(1); observed: every driven signal and every memory row after "
+        "every event. non-trivial = at least one wrapper (x) / some driven signal changes during the trace (t, s) / some "
+        "memory row changes (m); distinct by case hash")
 MODELLED = ("_xfrm.py LHSMaskCollector / _ControlInserter / ResetInserter / EnableInserter / DomainRenamer.map_statements, "
             "Fragment.add_statements, _pyrtl._FragmentCompiler per-domain processes + edge_waker, pysim step_design/commit "
             "(coq/Model/Xfrm.v on top of Stmt.v / Process.v). Validated only: TransformedElaboratable / Fragment.get plumbing, "
             "Module DSL lowering, waker bookkeeping (the model re-runs every comb process each delta), set iteration order of "
-            "processes, ClockSignal/ResetSignal renaming, memory-port gating (owned by C11), DomainRenamer on domain objects")
+            "processes, ClockSignal/ResetSignal renaming, DomainRenamer on domain objects. Memory instances under the wrappers "
+            "(EnableInserter port gating, DomainRenamer port domains, ResetInserter no-op) and the memory processes of "
+            "_FragmentCompiler / _PyMemoryState are modelled in Xfrm.v (mem_sync, mem_comb, mstep); lib.memory.Memory "
+            "elaboration is validated only")
 ASSUMPTIONS = ["clocks, resets and inserter controls are testbench-written signals not driven by the design",
                "single driver per bit (as enforced for legal designs); no combinational loops",
                "spec stream: F7 (async reset rise runs the whole sync process) is a known finding"]
@@ -61,9 +69,12 @@ def remap(t, m):
 
 
 class DGen:
-    def __init__(self, rng, ndom=None, depth=None, thorough=False, f7=None):
+    def __init__(self, rng, ndom=None, depth=None, thorough=False, f7=None, mem=False):
         self.r = rng
         r = rng
+        self.mem = mem
+        self.memlist = []
+        self.memtb = []
         self.sigs = []            # [w, signed, init, reset_less]
         self.names = []
         self.doms = []            # {"name", "pos", "rst": 0 none / 1 sync / 2 async, "clk": idx, "rsti": idx|None}
@@ -83,7 +94,7 @@ class DGen:
         self.ctl = []
         for k in range(r.choice((1, 2, 3))):
             q = r.random()
-            shape = (1, False) if q < 0.8 else ((2, False) if q < 0.9 else ((1, True) if q < 0.95 else (0, False)))
+            shape = (1, False) if (q < 0.8 or mem) else ((2, False) if q < 0.9 else ((1, True) if q < 0.95 else (0, False)))
             self.ctl.append(self.sig(shape[0], shape[1], 0, False, "ctl%d" % k))
         self.inputs = []
         for k in range(r.choice((1, 2, 3))):
@@ -289,6 +300,10 @@ class DGen:
             if e[0] != "comb":
                 allowed = self.tbsigs + self.state
                 e[1] = self.stmts(e[1], allowed, 2, r.choice((1, 2, 2, 3)))
+        mems = []
+        syncw = [d for d in written if d != "comb"]
+        if self.mem and syncw and (not self.memlist or r.random() < 0.3):
+            mems.append(self.new_memory(path, syncw))
         subs = []
         if depth > 0:
             old = anc_alias
@@ -296,7 +311,43 @@ class DGen:
             for k in range(r.choice((1, 1, 2))):
                 subs.append(self.node(depth - 1, path + (k,), False))
             self._anc_alias = old
-        return {"st": entries, "wr": wr, "subs": subs}
+        return {"st": entries, "wr": wr, "subs": subs, "mems": mems}
+
+    def new_memory(self, path, syncw):
+        """a lib.memory.Memory with 1-2 write ports (one domain) and 1-2 read ports; port inputs are testbench signals"""
+        r = self.r
+        k = len(self.memlist)
+        w = r.randrange(1, 5)
+        depth = r.randrange(2, 6)
+        aw = (depth - 1).bit_length()
+        init = [r.randrange(0, 1 << w) for _ in range(r.randrange(0, depth + 1))]
+        wd = r.choice(syncw)
+        wports, rports = [], []
+        for j in range(r.choice((1, 1, 2))):
+            gran = r.choice([None] + [g for g in range(1, w + 1) if w % g == 0])
+            enw = 1 if gran is None else w // gran
+            a = self.sig(aw, False, 0, False, "m%dw%d_addr" % (k, j))
+            d = self.sig(w, False, 0, False, "m%dw%d_data" % (k, j))
+            e = self.sig(enw, False, 0, False, "m%dw%d_en" % (k, j))
+            self.memtb += [a, d, e]
+            wports.append({"dom": wd, "gran": gran, "addr": a, "data": d, "en": e})
+        for j in range(r.choice((1, 2, 2))):
+            rd = r.choice(["comb", wd, wd, r.choice(syncw)])
+            a = self.sig(aw, False, 0, False, "m%dr%d_addr" % (k, j))
+            d = self.sig(w, False, 0, False, "m%dr%d_data" % (k, j))
+            self.memtb.append(a)
+            self.state.append(d)
+            self.owners[d] = [[0, w, path, rd]]
+            e = None
+            tr = []
+            if rd != "comb":
+                e = self.sig(1, False, 1, False, "m%dr%d_en" % (k, j))
+                self.memtb.append(e)
+                if rd == wd:
+                    tr = [x for x in range(len(wports)) if r.random() < 0.5]
+            rports.append({"dom": rd, "addr": a, "data": d, "en": e, "transp": tr})
+        self.memlist.append({"w": w, "depth": depth, "init": init, "wports": wports, "rports": rports})
+        return k
 
     _split = []
     _anc_alias = []
@@ -349,6 +400,8 @@ def build_node(case, node, so, root, wrapped):
         build_stmts(m, dn, body, so)
     for k, sub in enumerate(node["subs"]):
         m.submodules["u%d" % k] = build_node(case, sub, so, False, wrapped)
+    for mi in node.get("mems", ()):
+        m.submodules["m%d" % mi] = case_mems[id(so)][mi]
     e = m
     if wrapped:
         for w in node["wr"]:
@@ -361,9 +414,35 @@ def build_node(case, node, so, root, wrapped):
 
 
 def make_signals(case):
+    """signals in index order; the port signals of memories are the ones lib.memory creates"""
     from amaranth.hdl import Signal, Shape
-    return [Signal(Shape(w, bool(sg)), init=init, reset_less=bool(rl), name=nm)
-            for (w, sg, init, rl), nm in zip(case["sigs"], case["names"])]
+    so = [Signal(Shape(w, bool(sg)), init=init, reset_less=bool(rl), name=nm)
+          for (w, sg, init, rl), nm in zip(case["sigs"], case["names"])]
+    mems = []
+    if case.get("memlist"):
+        from amaranth.lib.memory import Memory
+        from amaranth.hdl import unsigned
+        for md in case["memlist"]:
+            mem = Memory(shape=unsigned(md["w"]), depth=md["depth"], init=md["init"])
+            wps = []
+            for wp in md["wports"]:
+                p = mem.write_port(domain=wp["dom"], granularity=wp["gran"])
+                wps.append(p)
+                so[wp["addr"]], so[wp["data"]], so[wp["en"]] = p.addr, p.data, p.en
+            for rp in md["rports"]:
+                p = mem.read_port(domain=rp["dom"], transparent_for=tuple(wps[x] for x in rp["transp"]))
+                so[rp["addr"]], so[rp["data"]] = p.addr, p.data
+                if rp["en"] is not None:
+                    so[rp["en"]] = p.en
+            mems.append(mem)
+        for sg_, (w, sgn, init, rl) in zip(so, case["sigs"]):
+            if (len(sg_), bool(sg_.shape().signed), sg_.init, bool(sg_.reset_less)) != (w, bool(sgn), init, bool(rl)):
+                raise ValueError("memory port signal differs from its declaration")
+    case_mems[id(so)] = mems
+    return so
+
+
+case_mems = {}
 
 
 def dom_ids(case):
@@ -382,7 +461,22 @@ def ser_fragment(frag, sm, ids):
         if dn not in ids:
             ids[dn] = len(ids)
         st.append([ids[dn], astser.ser_stmts(stmts, sm)])
-    return {"st": st, "subs": [ser_fragment(sf, sm, ids) for sf, _n, _s in frag.subfragments]}
+    from amaranth.hdl._mem import MemoryInstance
+    mems, subs = [], []
+    for sf, _n, _s in frag.subfragments:
+        if isinstance(sf, MemoryInstance):
+            for pt in list(sf._write_ports) + list(sf._read_ports):
+                if pt._domain not in ids:
+                    ids[pt._domain] = len(ids)
+            shp = sf._data.shape
+            mems.append({"w": shp.width, "sg": bool(shp.signed), "depth": sf._data.depth, "init": [int(v) for v in sf._data.init],
+                         "wports": [[ids[pt._domain], astser.ser_value(pt._addr, sm), astser.ser_value(pt._data, sm),
+                                     astser.ser_value(pt._en, sm)] for pt in sf._write_ports],
+                         "rports": [[ids[pt._domain], astser.ser_value(pt._addr, sm), astser.ser_value(pt._data, sm),
+                                     astser.ser_value(pt._en, sm), list(pt._transparent_for)] for pt in sf._read_ports]})
+        else:
+            subs.append(ser_fragment(sf, sm, ids))
+    return {"st": st, "mems": mems, "subs": subs}
 
 
 def elaborate(case, wrapped):
@@ -455,6 +549,14 @@ def enc_frag(f, shapes):
         out += [d, len(stmts)]
         for s in stmts:
             out += enc_stmt(s, shapes)
+    out.append(len(f.get("mems", ())))
+    for m in f.get("mems", ()):
+        out += [11, len(m["wports"])]
+        for d, a, dt, en in m["wports"]:
+            out += [d] + enc_expr(a, shapes) + enc_expr(dt, shapes) + enc_expr(en, shapes)
+        out.append(len(m["rports"]))
+        for d, a, dt, en, tr in m["rports"]:
+            out += [d] + enc_expr(a, shapes) + enc_expr(dt, shapes) + enc_expr(en, shapes) + [len(tr)] + list(tr)
     out.append(len(f["subs"]))
     for sf in f["subs"]:
         out += enc_frag(sf, shapes)
@@ -472,7 +574,7 @@ def norm_val(v, w, sg):
 def gen_events(rng, case, n):
     """each event: list of [sig, value]; values are what the signal holds afterwards"""
     r = rng
-    cur = {i: 0 for i in case["tb"]}
+    cur = {i: case["sigs"][i][2] for i in case["tb"]}
     toggles = []
     for d in case["doms"]:
         toggles.append(d["clk"])
@@ -527,7 +629,7 @@ def final_owner_dom(case, path, dn):
 def make_case(kind, rng, nev=0, **kw):
     g = make_design(rng, **kw)
     case = {"k": kind, "sigs": g.sigs, "names": g.names, "doms": g.doms, "alias": ["x%d" % k for k in range(g.naliases)] + ["zz"],
-            "tree": g.tree, "tb": g.tbsigs, "ctlsigs": g.ctl, "reads": g.state}
+            "tree": g.tree, "tb": g.tbsigs + g.memtb, "ctlsigs": g.ctl, "reads": g.state, "memlist": g.memlist}
     finish_case(case, g.owners, rng, nev)
     return case
 
@@ -605,9 +707,11 @@ def gen_cases(tier, seed):
         if q < 3:
             cases.append(make_case("x", rng))
         elif q < 4:
-            cases.append(make_case("c", rng))
-        elif q < 8:
+            cases.append(make_case("c", rng) if k % 20 == 3 else make_case("x", rng, mem=True))
+        elif q < 6:
             cases.append(make_case("t", rng, nev=rng.choice((12, nev, nev))))
+        elif q < 8:
+            cases.append(make_case("m", rng, nev=rng.choice((12, nev, nev)), mem=True))
         elif q < 9:
             cases.append(make_case("s", rng, nev=nev, f7=False))
         else:
@@ -654,6 +758,9 @@ def run_impl(case):
     sim = Simulator(top)
     rows = []
     reads = [so[i] for i in case["reads"]]
+    if k == "m":        # every row of every memory (pre-order of the hierarchy) after the signals
+        for mem, md in zip(case_mems[id(so)], case["memlist"]):
+            reads += [mem.data[a] for a in range(md["depth"])]
 
     async def tb(ctx):
         rows.extend(ctx.get(s) for s in reads)
@@ -698,7 +805,16 @@ def coq_wrapper(w, ids, shapes):
 def coq_tree(node, orig, ids, shapes):
     wr = "[" + "; ".join(coq_wrapper(w, ids, shapes) for w in node["wr"]) + "]"
     subs = "[" + "; ".join(coq_tree(s, o, ids, shapes) for s, o in zip(node["subs"], orig["subs"])) + "]"
-    return f"(FT {coq_entries(orig['st'], shapes)} {wr} {subs})"
+    mems = "[" + "; ".join(coq_mem(m, shapes) for m in orig.get("mems", ())) + "]"
+    return f"(FT {coq_entries(orig['st'], shapes)} {mems} {wr} {subs})"
+
+
+def coq_mem(m, shapes):
+    wps = "; ".join(f"WP {d}%nat {G.coq_expr(a, shapes)} {G.coq_expr(dt, shapes)} {G.coq_expr(en, shapes)}"
+                    for d, a, dt, en in m["wports"])
+    rps = "; ".join(f"RP {d}%nat {G.coq_expr(a, shapes)} {G.coq_expr(dt, shapes)} {G.coq_expr(en, shapes)} "
+                    "[" + "; ".join(f"{t}%nat" for t in tr) + "]" for d, a, dt, en, tr in m["rports"])
+    return f"(MI (Sh {z(m['w'])} {blit(m['sg'])}) {z(m['depth'])} {zlist(m['init'])} [{wps}] [{rps}])"
 
 
 def all_entries(orig):
@@ -720,7 +836,7 @@ def coq_term(case):
         return f"(k_xfrm {coq_tab(case)} {tree})"
     reads = "[" + "; ".join(f"{i}%nat" for i in case["reads"]) + "]"
     evs = "[" + "; ".join("[" + "; ".join(f"({i}%nat, {z(v)})" for i, v in ev) + "]" for ev in case["ev"]) + "]"
-    fn = "k_trace" if k == "t" else "k_trace_spec"
+    fn = {"t": "k_trace", "s": "k_trace_spec", "m": "k_mtrace"}[k]
     return f"({fn} {coq_tab(case)} {coq_doms(case)} {tree} {reads} {evs})"
 
 
@@ -734,7 +850,8 @@ def wr_sig(node):
 def classify(c):
     kinds = "".join("nsa"[d["rst"]] + ("+" if d["pos"] else "-") for d in c["doms"])
     nwr = sum(1 for ch in wr_sig(c["tree"]) if ch in "REN")
-    return f"{c['k']}:doms={kinds}:wrappers={min(nwr, 6)}"
+    mem = ":mem" if c.get("memlist") else ""
+    return f"{c['k']}:doms={kinds}:wrappers={min(nwr, 6)}{mem}"
 
 
 def nontrivial(c, obs):
@@ -744,8 +861,11 @@ def nontrivial(c, obs):
         return any(ch in "REN" for ch in wr_sig(c["tree"]))
     if c["k"] == "c":
         return len(obs) > 0
-    n = len(c["reads"])
+    n = len(c["reads"]) + (sum(m["depth"] for m in c.get("memlist", ())) if c["k"] == "m" else 0)
     rows = [obs[i:i + n] for i in range(0, len(obs), n)]
+    if c["k"] == "m":   # some memory row changes during the trace
+        k0 = len(c["reads"])
+        return any(r[k0:] != rows[0][k0:] for r in rows)
     return any(r != rows[0] for r in rows)
 
 
@@ -768,7 +888,7 @@ def known_finding(c, obs, model):
     step, sig, diff = fd
     if step == 0 or not c["sigs"][sig][3]:
         return None
-    cur = {i: 0 for i in c["tb"]}
+    cur = {i: c["sigs"][i][2] for i in c["tb"]}
     for ev in c["ev"][:step - 1]:
         for i, v in ev:
             cur[i] = v
@@ -793,7 +913,7 @@ def known_finding(c, obs, model):
 
 def shrink(c, obs, model):
     if c["k"] not in ("t", "s") or len(obs) != len(model):
-        return c, obs, model
+        return c, obs, model      # memory traces (m) are reported unshrunk
     fd = first_divergence(c, obs, list(model))
     if fd is None:
         return c, obs, model
